@@ -419,6 +419,10 @@ func (s *Schema) listValue(r *gen.Rng, l *List, depth int, o *VOpts) interface{}
 				if hasDefault(ea.Map, kf) && r.Chance(50) {
 					delete(item, kf)
 					sig += kf + "=<default>;"
+				} else if !o.Plain && r.Chance(12) {
+					// an explicit null in a key field is a key value of its own, default or not
+					item[kf] = nil
+					sig += kf + "=<null>;"
 				} else {
 					item[kf] = kv
 					sig += fmt.Sprintf("%s=%v;", kf, kv)
